@@ -32,6 +32,11 @@ def lone(vs):
     return []
 
 
+def bare_edge_reversed(vs):
+    # a single bare edge whose endpoints are not in the order the vertices were handed over
+    return (vs[1], vs[0])
+
+
 def path3_lists(vs):
     # the same two edges as path3, written as lists
     return [[vs[0], vs[1]], [vs[1], vs[2]]]
@@ -58,6 +63,8 @@ def fast_configs(tier):
         ("clique3+clique2", [3, 2], [clique_motif, clique_motif], ["3-clique", "2-clique"]),
         # a topology of motif size 1 (its callback returns no edges but must still be applied once per stub)
         ("clique2+lone1", [2, 1], [clique_motif, lone], ["2-clique", "lone"]),
+        # a topology name is an arbitrary label: here a tuple, not a str
+        ("clique3-tuple-name", [3], [clique_motif], [("3-clique", 3)]),
     ]
     if tier == "thorough":
         cfgs += [
@@ -75,6 +82,7 @@ def custom_configs(tier):
         ("bare-edge", [2], [bare_edge], [lambda: "2-clique"], [[0]]),
         ("one-edge-list", [2], [single_edge_list], [lambda: ["e"]], [[0]]),
         ("bare-edge-tuple-name", [2], [bare_edge], [lambda: ("2-clique",)], [[0]]),
+        ("bare-edge-reversed", [2], [bare_edge_reversed], [lambda: "2-clique"], [[0]]),
         ("two-edge-path", [3], [path3], [lambda: ("p01", "p12")], [[0]]),
         ("two-edge-path-as-lists", [3], [path3_lists], [lambda: ["p01", "p12"]], [[0]]),
         ("triangle", [3], [tri_tuple], [lambda: ("3-clique", "3-clique", "3-clique")], [[0]]),
@@ -195,6 +203,9 @@ def make_body(inst, tier, path):
     parts = path.split("-")
     kind, how = parts[0], parts[1]
     twice = len(parts) > 2 and parts[2] == "twice"   # observe the SECOND call on one generator object
+    # observe the second call after the caller's list object was edited in place: "grown" = the first call saw
+    # N+1 all-zero rows (no motifs), "shrunk" = the first call saw the same rows followed by two all-zero rows
+    regrow = parts[2] if len(parts) > 2 and parts[2] in ("grown", "shrunk") else None
     jds0 = [tuple(r) for r in inst["jds"]]
     if kind in ("fast", "network"):
         name, sizes, builds, names = fast_configs(tier)[inst["cfg"]]
@@ -225,6 +236,13 @@ def make_body(inst, tier, path):
             alg = GCMAlgorithmMain.load_gcm_algorithm(params)
             if type(alg) is not cls:
                 return {"wrong_class": type(alg).__name__}
+        if regrow:
+            width = len(sizes)
+            real = list(jds)
+            jds[:] = [(0,) * width] * (len(real) + 1) if regrow == "grown" else real + [(0,) * width] * 2
+            alg.random_clustered_graph(jds)
+            del log[:]
+            jds[:] = real
         out = alg.random_clustered_graph(jds)
         if twice:
             del log[:]
